@@ -1,13 +1,13 @@
 (* extraction of the ApiV2 model — ExtrOcamlBasic only; N/positive/nat stay inductive *)
 Require Extraction.
 Require Import ExtrOcamlBasic.
-From Verif Require Import ApiV2.Model ApiV2.Pool.
+From Verif Require Import ApiV2.Model ApiV2.Pool ApiV2.PoolFail.
 Extraction Language OCaml.
 Extraction "apiv2_model.ml"
   prefix end_key encode_key decode_key encode_range decode_range decode_region_range
   encode_region_key decode_region_key encode_region_range
   decode_bucket_keys parse_keyspace_id decode_scan
   decode_region_error split_v2_key
-  send encode attach pool_get real upd wire_spec
+  sendx send encode attach pool_get real upd wire_spec
   run lrun view proj_res proj_ops
   encode_int (* pulls in the type z that ocaml/common/common.ml refers to *).
